@@ -801,7 +801,7 @@ impl Model {
                             }
                             Some(_) => {}
                             None => {
-                                if h > t.last_submit && h - t.last_submit > 8 {
+                                if h > t.last_submit && h - t.last_submit > 8 && !self.maybe_dropped.contains(&k) {
                                     self.violations.push(viol(
                                         "C04",
                                         "stale-penalty-not-rebroadcast",
